@@ -10,7 +10,26 @@ var nums = []string{"0", "1", "2", "9", "10", "11", "01", "00", "123456789012345
 	"100000000000000000000", "18446744073709551615", "18446744073709551616", "9223372036854775807", "9223372036854775808", ""}
 var ids = []string{"0", "1", "10", "2", "01", "a", "A", "-", "--", "a1", "1a", "alpha", "beta", "rc1", "0a", "00", "", "x-y", "é", "_",
 	"pre", "0.20200101000000-abcdef123456", "99999999999999999999", "100000000000000000000"}
-var builds = []string{"incompatible", "meta", "a.b", "", "01", "x..y", "incompatible.1", "Incompatible", "dirty"}
+var builds = []string{"incompatible", "meta", "a.b", "", "01", "x..y", "incompatible.1", "Incompatible", "dirty", "meta-pre", "linux-amd64", "-", "a-.-b", "0-0"}
+
+// BuildMeta returns valid build metadata (without the '+'): one to three dot-separated
+// identifiers over [0-9A-Za-z-]; half are drawn from a list of usual ones.
+func BuildMeta(r *rand.Rand) string {
+	if r.IntN(2) == 0 {
+		return Pick(r, []string{"incompatible", "meta", "a.b", "01", "incompatible.1", "dirty", "meta-pre", "linux-amd64", "-", "a-.-b", "0-0", "Z", "exp.sha.5114f85"})
+	}
+	const alpha = "0123456789abyzABYZ-"
+	var sb strings.Builder
+	for i, k := 0, 1+r.IntN(3); i < k; i++ {
+		if i > 0 {
+			sb.WriteString(".")
+		}
+		for j, n := 0, 1+r.IntN(6); j < n; j++ {
+			sb.WriteByte(alpha[r.IntN(len(alpha))])
+		}
+	}
+	return sb.String()
+}
 
 // Pick returns a uniformly chosen element.
 func Pick[T any](r *rand.Rand, s []T) T { return s[r.IntN(len(s))] }
@@ -110,7 +129,7 @@ func ValidVersion(r *rand.Rand, allowShort bool) string {
 		}
 		if r.IntN(3) == 0 {
 			sb.WriteString("+")
-			sb.WriteString(Pick(r, []string{"incompatible", "meta", "a.b", "01", "incompatible.1", "dirty"}))
+			sb.WriteString(BuildMeta(r))
 		}
 	}
 	return sb.String()
